@@ -532,36 +532,40 @@ def return_dependences(fn: FuncInfo):
                 deps[root.id] = deps.get(root.id, set()) | src | extra
 
     out = []
-    loop_depth_weak = set()
-    for it in range(2):                                  # second pass: loop-carried dependences
-        out = []
-        for s in stmts:
-            in_loop = it == 1
-            if isinstance(s, ast.Assign):
-                src = sources(s.value)
-                for t in s.targets:
-                    bind(t, src, weak=it == 1)
-            elif isinstance(s, ast.AnnAssign) and s.value is not None:
-                bind(s.target, sources(s.value), weak=it == 1)
-            elif isinstance(s, ast.AugAssign):
-                bind(s.target, sources(s.value) | sources(s.target if isinstance(s.target, ast.Name) else None), weak=True)
-            elif isinstance(s, (ast.For, ast.AsyncFor)):
-                bind(s.target, sources(s.iter), weak=it == 1)
-            elif isinstance(s, ast.With):
-                for w in s.items:
-                    if w.optional_vars is not None:
-                        bind(w.optional_vars, sources(w.context_expr), weak=it == 1)
-            elif isinstance(s, ast.Expr) and isinstance(s.value, ast.Call) and isinstance(s.value.func, ast.Attribute):
-                root = s.value.func.value
-                while isinstance(root, (ast.Subscript, ast.Attribute)):
-                    root = root.value
-                if isinstance(root, ast.Name) and root.id in deps and root.id not in fn.params:
-                    src = set()
-                    for a in list(s.value.args) + [k.value for k in s.value.keywords]:
-                        src |= sources(a)
-                    deps[root.id] = deps[root.id] | src
-            elif isinstance(s, ast.Return):
-                out.append((s, sources(s.value)))
+    base_deps = dict(deps)
+    returns = [s for s in stmts if isinstance(s, ast.Return)]
+    for R in returns:
+        # only what PRECEDES this return can have produced its value; statements inside loops are visited twice so that
+        # loop-carried dependences are seen
+        deps.clear()
+        deps.update({k: set(v) for k, v in base_deps.items()})
+        before = stmts[:stmts.index(R)]
+        for it in range(2):
+            for s in before:
+                if isinstance(s, ast.Assign):
+                    src = sources(s.value)
+                    for t in s.targets:
+                        bind(t, src, weak=it == 1)
+                elif isinstance(s, ast.AnnAssign) and s.value is not None:
+                    bind(s.target, sources(s.value), weak=it == 1)
+                elif isinstance(s, ast.AugAssign):
+                    bind(s.target, sources(s.value) | sources(s.target if isinstance(s.target, ast.Name) else None), weak=True)
+                elif isinstance(s, (ast.For, ast.AsyncFor)):
+                    bind(s.target, sources(s.iter), weak=it == 1)
+                elif isinstance(s, ast.With):
+                    for w in s.items:
+                        if w.optional_vars is not None:
+                            bind(w.optional_vars, sources(w.context_expr), weak=it == 1)
+                elif isinstance(s, ast.Expr) and isinstance(s.value, ast.Call) and isinstance(s.value.func, ast.Attribute):
+                    root = s.value.func.value
+                    while isinstance(root, (ast.Subscript, ast.Attribute)):
+                        root = root.value
+                    if isinstance(root, ast.Name) and root.id in deps and root.id not in fn.params:
+                        src = set()
+                        for a in list(s.value.args) + [k.value for k in s.value.keywords]:
+                            src |= sources(a)
+                        deps[root.id] = deps[root.id] | src
+        out.append((R, sources(R.value)))
     return out
 
 
